@@ -117,6 +117,21 @@ CLAIMED = {
             'assumption; the file species list ranges over representative lists (prefix, non-prefix, gap, single late, empty) x '
             'all subsets for the value; thrust-mode maps in every rotation of insertion order; floats as reals',
             'contract-based deductive verification: AST->z3 VCs of the real source over a ghost NetCDF variable', 'DESIGN 2 C03'),
+    'C12': ('other',
+            'Deductive part: ISA temperature / pressure (both layers, refusal above 25 km), pressure<->altitude mutually inverse, '
+            'speed of sound, density, AtmosphericState, the FFM2 sea-level fuel-flow correction, the thrust category (total, '
+            'exclusive, monotone, thresholds at the calibration mid-points), fuel-sulfur stoichiometry (sulfur atoms conserved), NOx '
+            'speciation (fractions sum to one), BFFM2 NOx (log-log least-squares fit with the eq. 44/45 humidity / theta / delta '
+            'correction; NO+NO2+HONO = NOx; non-negative) and FOA3 volatile PM are executed symbolically on arrays of symbolic '
+            'length and proved equal to spec functions written from the cited equations. Bounded part: EI_HCCO and SCOPE11 are '
+            'compared with independent reference implementations, and linear scaling checked, on sampled data sets; MEEM is not '
+            'covered.',
+            'floats as reals; pow/exp/log10/sqrt uninterpreted with axiom instances (listed in the evidence); np.polyfit(deg 1) = '
+            'closed-form least squares, np.interp, np.select, np.where models; the humidity term of BFFM2 is assumed defined '
+            '(P > phi*Pv) on 200-320 K / >= 2 kPa; the publications are not available offline, constants are those of the '
+            'standard forms (humidity reference 0.0063 as in the code; the literature also quotes 0.00634)',
+            'contract-based deductive verification with spec functions (AST->z3), plus a bounded sampled stand-in for EI_HCCO / SCOPE11',
+            'DESIGN 2 C12'),
 }
 REASONS_TODO = 'check not built yet (work in progress; see DESIGN.md section 2)'
 
